@@ -476,15 +476,70 @@ fn part_pumped() -> Stats {
     })
 }
 
+/// (f) identifier shapes: every word over letters, `:`, `_`, `.`, `#`, a digit and multi-byte characters,
+/// in every syntactic position an identifier can take (read, call with and without parentheses, call
+/// without argument, assignment and op-assignment target, operand), and hexadecimal words around and
+/// beyond the i64 range.
+fn part_identifiers(max: usize) -> Stats {
+    let alpha: Vec<char> = vec!['a', ':', '_', '.', '#', '0', 'é', '😀'];
+    let mut words: Vec<String> = vec![];
+    fn go(cur: &mut String, len: usize, alpha: &[char], max: usize, out: &mut Vec<String>) {
+        if len > 0 {
+            out.push(cur.clone());
+        }
+        if len == max {
+            return;
+        }
+        for c in alpha {
+            cur.push(*c);
+            go(cur, len + 1, alpha, max, out);
+            cur.pop();
+        }
+    }
+    go(&mut String::new(), 0, &alpha, max, &mut words);
+    for builtin in ["math::", "str::", "math::a", "str::é", "::", "a::", "::a", "math:", "str:"] {
+        words.push(builtin.to_string());
+    }
+    for digits in [15usize, 16, 17, 18, 32, 33, 64, 200] {
+        for d in ['f', 'F', '8', '0', '1'] {
+            words.push(format!("0x{}", d.to_string().repeat(digits)));
+            words.push(format!("0x1{}", d.to_string().repeat(digits)));
+        }
+    }
+    par_items(&words, |_, w| {
+        let cx = contexts();
+        let mut st = Stats::new();
+        for src in [
+            w.clone(),
+            format!("{w} 1"),
+            format!("{w}(1)"),
+            format!("{w}()"),
+            format!("{w}(1, \"s\")"),
+            format!("{w} = 1"),
+            format!("{w} += 1"),
+            format!("1 + {w}"),
+            format!("{w} {w}"),
+            format!("({w})"),
+            format!("{w}; {w}(a)"),
+        ] {
+            check_source(&src, &cx, true, &mut st);
+            st.states += 1;
+            st.count("f/identifier-shape-sources");
+        }
+        st
+    })
+}
+
 pub fn run(cfg: &Cfg) -> Report {
     let t = cfg.tier;
     let mut stats = Stats::new();
     stats.merge(part_tokens(t.pick(4, 6), t.pick(3, 4)));
     stats.merge(part_chars(t.pick(3, 5)));
+    stats.merge(part_identifiers(t.pick(3, 4)));
     stats.merge(part_builtins(t));
     stats.merge(part_operators());
     stats.merge(part_pumped());
-    stats.add("nontrivial-distinct", stats.get("a/token-sequences") + stats.get("b/char-strings"));
+    stats.add("nontrivial-distinct", stats.get("a/token-sequences") + stats.get("b/char-strings") + stats.get("f/identifier-shape-sources"));
     stats.sample(json!({"part": "a", "source": "( a += \"s\" , ! f"}));
     stats.sample(json!({"part": "b", "source": "1e-\n"}));
     stats.sample(json!({"part": "c", "call": "shl(x)", "x": RV::Tuple(vec![RV::Int(1), RV::Int(64)]).to_json()}));
@@ -497,7 +552,7 @@ pub fn run(cfg: &Cfg) -> Report {
     Report {
         property: ID,
         level: "model_checking",
-        rule: format!("(a) depth-first search over every token sequence of length <= {} over a 20-token alphabet (incl. dangling `&`, `|`), a state is a token prefix; (b) every character string of length <= {} over a 27-character alphabet (digits, e, x, dot, quote, backslash, comment and operator characters, whitespace, multi-byte characters); (c) 49 builtins x the C10 argument matrix, with the argument bound and literal-rendered; (d) every operator, op-assign, prefix operator and sequence x pool^2; (e) {} pumped families x lengths {:?} in child processes. Every input: tokenize, precompile, Display/Debug/clone/iterators of the tree, evaluation in 12 contexts (HashMapContext empty / identifiers bound to each type incl. extremes / total, failing and shadowing user functions / builtins off; EmptyContext; EmptyContextWithBuiltinFunctions) through shared and mutable forms, string-level forms, all typed wrappers on the shorter inputs, Display/Debug of every value and error. Both build profiles (overflow checks on, off). Non-trivial: every token sequence and character string (each enumerated once)", t.pick(4, 6), t.pick(3, 5), families().len(), PUMP_LENGTHS),
+        rule: format!("(a) depth-first search over every token sequence of length <= {} over a 20-token alphabet (incl. dangling `&`, `|`), a state is a token prefix; (b) every character string of length <= {} over a 27-character alphabet (digits, e, x, dot, quote, backslash, comment and operator characters, whitespace, multi-byte characters); (c) 49 builtins x the C10 argument matrix, with the argument bound and literal-rendered; (d) every operator, op-assign, prefix operator and sequence x pool^2; (e) {} pumped families x lengths {:?} in child processes; (f) identifier shapes: every word of length <= {} over `a : _ . # 0` and two multi-byte characters, namespace fragments (`math::`, `str:` ...) and hexadecimal words of 15..200 digits, each in 11 syntactic positions (read, call forms, assignment targets, operand, group). Every input: tokenize, precompile, Display/Debug/clone/iterators of the tree, evaluation in 12 contexts (HashMapContext empty / identifiers bound to each type incl. extremes / total, failing and shadowing user functions / builtins off; EmptyContext; EmptyContextWithBuiltinFunctions) through shared and mutable forms, string-level forms, all typed wrappers on the shorter inputs, Display/Debug of every value and error. Both build profiles (overflow checks on, off). Non-trivial: every token sequence and character string (each enumerated once)", t.pick(4, 6), t.pick(3, 5), families().len(), PUMP_LENGTHS, t.pick(3, 4)),
         nontrivial_set: "counter:nontrivial-distinct",
         exhaustive: true,
         bound_completed: format!("token sequences {}, character strings {}, pumped inputs to 4096 characters", t.pick(4, 6), t.pick(3, 5)),
